@@ -650,6 +650,9 @@ Token *tokenize(File *file) {
     error_at(p, "invalid token");
   }
 
+  // The end of the input also ends the last line, even if the
+  // text stops in the middle of one (a NUL byte ends the input).
+  at_bol = true;
   cur = cur->next = new_token(TK_EOF, p, p);
   add_line_numbers(head.next);
   return head.next;
